@@ -155,6 +155,8 @@ def run(c, chk):
     # ---- R11.2 ------------------------------------------------------------------------------
     for fname in RESOLVER_FAMILY:
         f = c.need(fname)
+        if fname in c.unknown_funcs:
+            continue          # given another interface (out-parameters ...): judged on the paths of its callers, like every helper
         bad = []
         undecided = []
         for ins in f.instrs():
@@ -622,8 +624,20 @@ def step_boundaries(c, chk, ex, sec):
         if p.end != 'ret' or p.retval in (sym.C0, None):
             continue
         # R11.14
+        if not any(e.kind == 'call' and e.name in parsers and not e.inlined for e in p.events):
+            # the title parser is analysed as part of the resolver (it was split, merged or given another interface): a quoted
+            # qualifier shows on the path as two bytes found to be quotes; after the second, a byte was shown to be the
+            # separator or the end
+            qpos = [k for k, (cn, t, _) in enumerate(p.assume) if cn[0] == 'icmp' and cn[1] in ('eq', 'ne') and ('c', 39) in (cn[2], cn[3]) and ((cn[1] == 'eq') == t)]
+            if len(qpos) >= 2:
+                n14 += 1
+                if not any(cn[0] == 'icmp' and cn[1] in ('eq', 'ne') and ((cn[1] == 'eq') == t) and (('c', 124) in (cn[2], cn[3]) or sym.C0 in (cn[2], cn[3]))
+                           and sym.mentions(cn, lambda v: v[0] == 'ld') for cn, t, _ in p.assume[qpos[-1] + 1:]):
+                    ev_ = [e for e in p.events if e.kind == 'call' and e.name in parsers]
+                    if ev_:
+                        bad14 = bad14 or (p, ev_[0])
         for e in p.events:
-            if e.kind == 'call' and e.name in parsers and len(e.args) > 1:
+            if e.kind == 'call' and e.name in parsers and len(e.args) > 1 and not e.inlined:
                 ok_title = any((lambda na: na is not None and na[0] == e.res and na[1] is False)(fp.is_null_assumption(cn, t)) for cn, t, _ in p.assume)
                 if not ok_title:
                     continue
